@@ -66,12 +66,16 @@ func drawMalformed(t *rapid.T) (s StreamSpec, prefix bool) {
 		return s, false
 	case 6:
 		// header-level fault (or none) in a dynamic block, input cut inside that header
-		hdrFaults := []string{synth.FMissingEOB, synth.FMissingEOB, synth.FOverLit, synth.FOverDist, synth.FOverCL, synth.FRepeatFirst, synth.FRunPast, synth.FHLIT, synth.FIncompleteLit, ""}
+		hdrFaults := []string{synth.FMissingEOB, synth.FMissingEOB, synth.FOverLit, synth.FOverDist, synth.FOverCL, synth.FRepeatFirst, synth.FRunPast, synth.FHLIT, synth.FHDIST, synth.FIncompleteLit, ""}
 		sy := drawSynth(t)
 		sy.Blocks = sy.Blocks[:1]
 		sy.Blocks[0].Type = 2
 		if k := rapid.SampledFrom(hdrFaults).Draw(t, "hdrfault"); k != "" {
 			sy.Fault = &synth.Fault{Kind: k, Block: 0, At: 0, Arg: rapid.IntRange(0, 127).Draw(t, "farg")}
+			if k == synth.FRunPast {
+				sy.Fault.Arg = rapid.IntRange(0, 767).Draw(t, "runpast")
+				sy.Fault.At = rapid.IntRange(1, 300).Draw(t, "runpastcut")
+			}
 		}
 		s = StreamSpec{Kind: "synth", Synth: sy}
 		s.Mut = []Mutation{{Kind: "trunchdr", Pos: rapid.IntRange(0, 1000).Draw(t, "hdrcut")}}
